@@ -29,6 +29,7 @@ type c05Case struct {
 	WT    bool  `json:"wt"` // explicit write_time set on the connection
 	First []int `json:"first"`
 	Depth int   `json:"depth"`
+	Cache int   `json:"cache,omitempty"` // node_cache_entries
 }
 
 func init() {
@@ -57,6 +58,14 @@ func c05Run(r *engine.Run) int {
 			}
 		}
 	}
+	// single-node table with a node cache: the cached node object is shared between the live tree and the
+	// snapshot taken at BEGIN, so anything that modifies stored values in place survives a ROLLBACK
+	for a := range c05Ops {
+		for b := range c05Ops {
+			cases = append(cases, engine.J(c05Case{EPN: 4096, WT: true, Cache: 100, First: []int{a, b}, Depth: depth}))
+		}
+	}
+	r.Bounds["node_cache_entries"] = []int{0, 100}
 	n := 0
 	r.MapBudget("c05", cases, func(i int, c json.RawMessage, res *engine.Result) {
 		r.Add("c05", c, res)
@@ -114,16 +123,23 @@ func c05RunSeq(res *engine.Result, c c05Case, ops []int) ([]string, bool) {
 	for i, o := range ops {
 		names[i] = c05Ops[o]
 	}
-	where := fmt.Sprintf("epn=%d write_time_set=%v ops=%v", c.EPN, c.WT, names)
+	where := fmt.Sprintf("epn=%d cache=%d write_time_set=%v ops=%v", c.EPN, c.Cache, c.WT, names)
 	violFrom := len(res.Viol)
-	defer func() { c05Feat(res, violFrom, c.EPN) }()
+	defer func() {
+		c05Feat(res, violFrom, c.EPN)
+		if c.Cache > 0 {
+			for i := violFrom; i < len(res.Viol); i++ {
+				res.Viol[i].Class += "|cache>0"
+			}
+		}
+	}()
 	w := engine.NewWorld()
 	defer w.Close()
 	w.SetClock(engine.T(1000))
 	cl := w.NewClient("w1")
-	must(cl.Create(engine.TableOpts{EPN: c.EPN}))
+	must(cl.Create(engine.TableOpts{EPN: c.EPN, Cache: c.Cache}))
 	must(cl.Exec("create table nat(a primary key, b, c) without rowid"))
-	must(cl.Create(engine.TableOpts{EPN: c.EPN, Suffix: "_o", Prefix: "other"}))
+	must(cl.Create(engine.TableOpts{EPN: c.EPN, Cache: c.Cache, Suffix: "_o", Prefix: "other"}))
 	must(cl.Exec("create table nat2(a primary key, b, c) without rowid"))
 	otherKey := 0
 	must(cl.Exec("begin"))
